@@ -34,6 +34,7 @@ def main():
         tier = a[i + 1]
         del a[i:i + 2]
     src, pid, name = a[:3]
+    src = os.path.abspath(src)
     wt = tempfile.mkdtemp(prefix=f'seedeval_{name}_', dir='/tmp')
     os.rmdir(wt)
     meta = dict(name=name, property=pid, source=src)
